@@ -21,9 +21,12 @@ def parse_programs(srcs):
     if todo:
         outs = nlrun(['@ast ' + s.replace('\n', ' ') for s in todo], 'release')
         for s, o in zip(todo, outs):
-            if not o.startswith('K AST '): raise Missing(f'program does not parse: {s!r}: {o[:200]}')
-            _AST_CACHE[s] = o[6:]
-    return [astimport.import_debug(_AST_CACHE[s], 'LocExpr', types()) for s in srcs]
+            _AST_CACHE[s] = o[6:] if o.startswith('K AST ') else ('ERR', o[:200])
+    out = []
+    for s in srcs:
+        if isinstance(_AST_CACHE[s], tuple): raise Missing(f'program does not parse: {s!r}: {_AST_CACHE[s][1]}')
+        out.append(astimport.import_debug(_AST_CACHE[s], 'LocExpr', types()))
+    return out
 
 # ------------------------------------------------------------------------------------------------ values
 def num(v, rep='Small'): return Adt('Obj', 'Num', [Adt('NNum', 'Int', [Adt('NInt', rep, [v if z3.is_expr(v) else z3.IntVal(v)])])])
@@ -34,12 +37,33 @@ def prec(p, assoc='Left'): return Adt('Precedence', None, [F64(3, z3.RealVal(p))
 def builtin_obj(struct_adt, p=0.0): return Adt('Obj', 'Func', [Adt('Func', 'Builtin', [RcV(RcObj(struct_adt))]), prec(p)])
 def stub(name): return Adt('StubBuiltin', None, [name])
 
+_REG = None
+def registered_builtin(E, name):
+    """the real builtin object of a `XxxBuiltin { name: "..", body: |..| }` registration in initialize: the wrapper struct named in the
+    source with the real closure as its body (so programs can call map, filter, reverse, … exactly as registered)"""
+    global _REG
+    if _REG is None:
+        src = open(os.path.join(REPO, 'src', 'lib.rs')).read(); _REG = {}
+        for m in re.finditer(r'(\w+Builtin)\s*\{\s*name:\s*"((?:[^"\\]|\\.)*)"\.to_string\(\),\s*body:\s*(\|)', src):
+            pos = m.start(3); line = src.count('\n', 0, pos) + 1; col = pos - (src.rfind('\n', 0, pos) + 1) + 1
+            _REG[m.group(2)] = (m.group(1), f'{{closure@src/lib.rs:{line}:{col}:')
+    if name not in _REG: raise Missing(f'builtin {name!r} is not a closure registration in initialize')
+    wrapper, key = _REG[name]
+    tys = [ty for ty in E.closures if ty.startswith(key)]
+    if len(tys) != 1: raise Missing(f'closure of builtin {name!r} not found in the MIR dump')
+    return Adt(wrapper, None, [sbytes(name), Closure(tys[0], [])])
+
 PRECS = {'+': 5.0, '-': 5.0, '*': 6.0, '/': 6.0, '<': 2.0, '>': 2.0, '<=': 2.0, '>=': 2.0, '==': 2.0, '!=': 2.0, '++': 4.0, 'append': 0.0, 'to': 4.0, 'til': 4.0}
 REAL = {'+': 'Plus', '-': 'Minus', '*': 'Times', '/': 'Divide', 'append': 'Append', 'prepend': 'Prepend'}
-def top_env(bindings, builtins=('+', '-', '*', '<', '>', '<=', '>=', '==', '!=', 'print')):
-    """a top-level Env: {name: value} for the program's free variables plus the named builtins"""
+def top_env(bindings, builtins=('+', '-', '*', '<', '>', '<=', '>=', '==', '!=', 'print'), E=None, registered=(), structs=None):
+    """a top-level Env: {name: value} for the program's free variables plus the named builtins; `registered`: names whose real
+    closure registration is used (needs the engine E); `structs`: {name: Adt} for struct-implemented builtins built by the caller"""
     from mirsym.hashmap import hm
     entries = []
+    for b in registered:
+        entries.append(Tup([sbytes(b), Tup([Adt('ObjType', 'Any', []), BoxV(refcell(builtin_obj(registered_builtin(E, b), PRECS.get(b, 0.0))))])]))
+    for b, s in (structs or {}).items():
+        entries.append(Tup([sbytes(b), Tup([Adt('ObjType', 'Any', []), BoxV(refcell(builtin_obj(s, PRECS.get(b, 0.0))))])]))
     for b in builtins:
         s = Adt(REAL[b], None, []) if b in REAL else stub(b)
         entries.append(Tup([sbytes(b), Tup([Adt('ObjType', 'Any', []), BoxV(refcell(builtin_obj(s, PRECS.get(b, 0.0))))])]))
